@@ -2,6 +2,7 @@ SPECIFICATION Spec
 CONSTANTS
   Nodes = {1, 2}
   MaxEvents = 6
+  WithReload = FALSE
   Stricts = {TRUE}
   Excl = {0}
   Fams = {"4"}
